@@ -387,6 +387,101 @@ def forwarding(ctx: Ctx):
     ctx.ob("C10.d", "DecodingStrategy.step:mask-passed", okm, fi.loc, "mask is replaced by None only under `not self.mask_logits`", construct="DecodingStrategy.step:mask")
     own_distribution_decoders(ctx)
     dispatch_rules(ctx)
+    own_loops_select_through_the_shared_selector(ctx)
+    start_sampler_draws_feasible_actions(ctx)
+
+
+OWN_LOOPS = [("rl4co/models/zoo/eas/decoder.py", "forward_eas"), ("rl4co/models/zoo/ptrnet/decoder.py", "Decoder.forward"),
+             ("rl4co/models/zoo/matnet/decoder.py", "MultiStageFFSPDecoder.forward"), ("rl4co/models/zoo/mdam/decoder.py", "MDAMDecoder.forward")]
+
+
+def own_loops_select_through_the_shared_selector(ctx: Ctx):
+    """C10.g the decoders that run their own decoding loop (EAS, PtrNet, MatNet-FFSP, MDAM) pick the action with
+    `decode_logprobs(logprobs, mask, ...)` -- the selector that takes the PROCESSED log-probabilities and asserts feasibility.
+    Taint rule inside each such function: T = the names handed to / returned by process_logits and the names handed to
+    decode_logprobs; no argmax / multinomial / topk / argmin may be applied to an expression mentioning a name of T (a raw
+    `logits.argmax(-1)` is only masked when process_logits happened to mask in place, i.e. without tanh clipping), and every
+    function keeps at least one decode_logprobs call whose distribution argument is in T."""
+    SELECT = {"argmax", "multinomial", "topk", "argmin"}
+    for path, qn in OWN_LOOPS:
+        fi = ctx.repo.get_function(path, qn)
+        ctx.fn(fi)
+        T = set()
+        calls = [n for n in ast.walk(fi.node) if isinstance(n, ast.Call)]
+
+        def cname(c):
+            return c.func.id if isinstance(c.func, ast.Name) else (c.func.attr if isinstance(c.func, ast.Attribute) else None)
+        dl = [c for c in calls if cname(c) == "decode_logprobs"]
+        pl = [c for c in calls if cname(c) == "process_logits"]
+        for c in dl + pl:
+            if c.args:
+                T |= {n.id for n in ast.walk(c.args[0]) if isinstance(n, ast.Name)}
+        for st in ast.walk(fi.node):
+            if isinstance(st, ast.Assign) and isinstance(st.value, ast.Call) and cname(st.value) == "process_logits":
+                for tg in st.targets:
+                    T |= {n.id for n in ast.walk(tg) if isinstance(n, ast.Name)}
+        T -= {"self"}
+        if not dl:
+            ctx.ob("C10.g", f"{fi.qualname}:selects-through-decode_logprobs", False, fi.loc,
+                   "no decode_logprobs call left in a decoder that runs its own decoding loop", construct=f"{fi.qualname}:own-selection")
+            continue
+        bad = []
+        for c in calls:
+            nm = cname(c)
+            if nm not in SELECT:
+                continue
+            recv = [c.func.value] if isinstance(c.func, ast.Attribute) and not (isinstance(c.func.value, ast.Name) and c.func.value.id == "torch") else list(c.args[:1])
+            names = {n.id for r in recv for n in ast.walk(r) if isinstance(n, ast.Name)}
+            if names & T:
+                bad.append(f"{ast.unparse(c)[:60]} (line {c.lineno})")
+        ctx.ob("C10.g", f"{fi.qualname}:selects-through-decode_logprobs", not bad, fi.loc,
+               f"{len(dl)} decode_logprobs call(s); step-distribution names {sorted(T)}; own selections on them: {bad or 'none'}" +
+               ("" if not bad else " -- the action is taken from values the mask / clipping / temperature pipeline has not (or only by an in-place side effect) been applied to, and without the feasibility assertion"),
+               construct=f"{fi.qualname}:own-selection")
+
+
+def start_sampler_draws_feasible_actions(ctx: Ctx):
+    """C10.h ops.sample_n_random_actions (the sampler of SamplingEval and of the FJSP multi-start): sampling only ever returns
+    actions of positive probability.  torch.multinomial WITHOUT replacement silently fills a row's draws with zero-probability
+    entries once the row has fewer positive weights than draws, so
+      * the weights of infeasible actions are exactly zero: -inf written at ~action_mask before a softmax over the ACTION axis;
+      * replacement is switched off only when every row has at least n feasible actions: the guard compares n with a count of
+        the mask over the ACTION axis (dim 1 / -1 of the [batch, actions] mask), minimised over the batch (or taken per row)."""
+    fi = ctx.repo.get_function("rl4co/utils/ops.py", "sample_n_random_actions")
+    ctx.fn(fi)
+    it = vg.Interp(ctx.repo, None, inline_policy=lambda f, a: False)
+    fr = it.run_function(fi)
+    mult = [a for a in vg.walk(fr.ret) if nf._fn(a) == "torch.multinomial" or (a.op == "meth" and a.args[1] == "multinomial")] if isinstance(fr.ret, vg.S) else []
+    if len(mult) != 1:
+        raise AnalysisError(f"sample_n_random_actions: expected one multinomial draw, found {len(mult)}")
+    m0 = mult[0]
+    margs = list(m0.args[1:]) if m0.op == "call" else [m0.args[0]] + list(m0.args[2:])
+    pos = [y for y in margs if not (isinstance(y, vg.S) and y.op == "kw")]
+    kws = {k_.args[0]: k_.args[1] for k_ in margs if isinstance(k_, vg.S) and k_.op == "kw"}
+    rep = kws.get("replacement", pos[2] if len(pos) > 2 else None)
+    # weights
+    w = nf.strip(pos[0])
+    okw, whyw = False, "softmax over masked weights not found"
+    if nf._fn(w) in ("torch.softmax", "torch.nn.functional.softmax") or (w.op == "meth" and w.args[1] == "softmax"):
+        inner = w.args[1] if w.op == "call" else w.args[0]
+        st = [x for x in vg.walk(inner) if x.op == "store" and _neg_inf(x.args[2])]
+        neg = any(nf.strip(x.args[1], True).op in ("inv", "not") and "action_mask" in vg.show(x.args[1], 4) for x in st)
+        ax = nf.axis_is(w, 1) or nf.axis_is(w, -1)
+        okw = neg and ax
+        whyw = f"-inf at ~action_mask before the softmax: {neg}; softmax over the action axis: {ax}"
+    ctx.ob("C10.h", "sample_n_random_actions:infeasible-weight-zero", okw, fi.loc, whyw, construct="sample_n_random_actions:masking")
+    # replacement guard
+    okr, whyr = False, "replacement flag not recognised"
+    if vg.is_const(rep, True):
+        okr, whyr = True, "always with replacement"
+    elif isinstance(rep, vg.S) and rep.op in ("phi", "ifexp"):
+        cnts = [n_ for n_ in vg.walk(rep.args[0]) if (nf._fn(n_) in ("torch.sum", "torch.count_nonzero") or (n_.op == "meth" and n_.args[1] in ("sum", "count_nonzero"))) and "action_mask" in vg.show(n_, 6)]
+        if cnts:
+            ax = all(nf.axis_is(c_, 1) or nf.axis_is(c_, -1) for c_ in cnts)
+            okr = ax
+            whyr = f"the guard counts feasible actions with {vg.show(cnts[0], 3)[:80]}: over the action axis -- {ax}" + \
+                ("" if ax else "; a count over the batch axis says how many INSTANCES offer a node, not how many nodes an instance offers: a row with fewer than n feasible actions is drawn without replacement")
+    ctx.ob("C10.h", "sample_n_random_actions:no-replacement-needs-n-feasible-per-row", okr, fi.loc, whyr, construct="sample_n_random_actions:replacement-count-axis")
 
 
 def dispatch_rules(ctx: Ctx):
